@@ -46,7 +46,7 @@ func evalRecovered(e *Env, prop string, cfg Cfg, img []byte, last *State, inprog
 	defer func() {
 		if r2.F != nil {
 			r2.tx = nil
-			r2.F.Close()
+			r2.E.CloseFile(r2.F)
 		}
 	}()
 	hdr := txfile.VerifHeaderSnapshot(r2.F)
@@ -101,7 +101,7 @@ func evalRecovered(e *Env, prop string, cfg Cfg, img []byte, last *State, inprog
 }
 
 func init() {
-	probeNames["C01"] = []string{"recovered_last", "recovered_inprogress", "continuation", "pending_gt_exh", "torn_header", "txid_wrap", "truncate_pending", "image_nonempty_pending", "commit_ok", "reopen"}
+	probeNames["C01"] = []string{"recovered_last", "recovered_inprogress", "continuation", "pending_gt_exh", "torn_header", "txid_wrap", "truncate_pending", "image_nonempty_pending", "commit_ok", "reopen", "big_transaction", "writer_batch_limit_reached"}
 	register(&PropDef{
 		ID: "C01", Level: "fault_enumeration", QuickSec: 55, ThoroSec: 1200,
 		Rule: "each run = one seeded txops history (config and writer timing drawn per run); evaluations = crash images: for EVERY op-log index after file creation (crash just before that I/O call) x subsets of the writes/truncates issued since the last completed sync (all 2^n subsets for n<=6 quick / 8 thorough, else none/all/all-but-one/singletons/prefixes/random) x header tears at all field boundaries + random offsets; each image is opened by the real engine and compared with the allowed model state selected by header txid, then every 4th image runs a continuation workload + reopen. Non-trivial = image with at least one pending op; distinct = (run signature, crash index, kept subset, tear).",
@@ -116,6 +116,37 @@ func c01Body(e *Env) {
 	var initImg []byte
 	logStart := 0
 	rngCfg := e.Rng("c01cfg")
+	big := false
+	if c.Cfg == nil && rngCfg.Intn(25) == 0 {
+		// "big transaction" variant: more page writes in flight than the writer
+		// takes in one batch (1024), writer goroutine starved
+		cfg := DrawCfg(e.Rng("cfg"), -1)
+		cfg.PageSize, cfg.MaxSize, cfg.InitMeta = 1024, 0, []int{0, 16}[rngCfg.Intn(2)]
+		cfg.BgWeight, cfg.Stick, cfg.WALLimit = 0.05, 0.9, 1000
+		cfg.NTx = 3
+		cfg.Variant = 9
+		c.Cfg = &cfg
+		n := 1040 + rngCfg.Intn(700)
+		var ops []Op
+		ops = append(ops, Op{K: "begin"})
+		for left := n; left > 0; left -= 200 {
+			ops = append(ops, Op{K: "allocn", A: min(left, 200)})
+		}
+		for i := 0; i < n; i++ {
+			ops = append(ops, Op{K: "setfull", A: i})
+		}
+		ops = append(ops, Op{K: "commit"}, Op{K: "begin"})
+		m := 1030 + rngCfg.Intn(n-1030)
+		for i := 0; i < m; i++ {
+			ops = append(ops, Op{K: "setfull", A: i})
+		}
+		ops = append(ops, Op{K: "commit"})
+		c.Tasks = map[string][]Op{"main": ops}
+	}
+	if c.Cfg != nil && c.Cfg.Variant == 9 {
+		big = true
+		e.Probe("big_transaction")
+	}
 	r := txWorkload(e, 0, func(r *Runner, g *Gen) {
 		if c.Cfg.NTx > 12 {
 			c.Cfg.NTx = 3 + c.Cfg.NTx%10
@@ -127,7 +158,7 @@ func c01Body(e *Env) {
 		}
 		r.AfterCreate = func() {
 			if r.Cfg.TxidBase != 0 {
-				r.F.Close()
+				r.E.CloseFile(r.F)
 				r.F = nil
 				rebaseTxids(r.D.Content(), r.Cfg.PageSize, r.Cfg.TxidBase)
 				if err := r.Open(); err != nil {
@@ -156,7 +187,7 @@ func c01Body(e *Env) {
 	if c.Tier == "thorough" {
 		maxExh, nrand = 8, 32
 	}
-	plan := CrashPlan{From: 0, MaxExh: maxExh, NRandom: nrand, PageSize: c.Cfg.PageSize, Tear: true, Rng: e.Rng("crash"), Only: c.Crash, Stop: e.Failed}
+	plan := CrashPlan{From: 0, MaxExh: maxExh, NRandom: nrand, PageSize: c.Cfg.PageSize, Tear: true, Rng: e.Rng("crash"), Only: c.Crash, Stop: e.Failed, SparseK: big}
 	evals := 0
 	for _, op := range log {
 		if op.Kind == simdisk.OpTruncate {
@@ -185,6 +216,9 @@ func c01Body(e *Env) {
 		}
 		if n > maxExh {
 			e.Probe("pending_gt_exh")
+		}
+		if n >= 1024 {
+			e.Probe("writer_batch_limit_reached")
 		}
 		evalRecovered(e, "C01", r.Cfg, img, last, inprog, evals%4 == 0 || k == len(log), uint64(evals), desc)
 		if e.Failed() && c.Crash == nil {
